@@ -13,7 +13,7 @@ import tempfile
 VERIF = os.path.dirname(os.path.dirname(os.path.abspath(__file__)))
 
 
-def run_checks(ref, patches, ids, tier="quick", repo="/repo", quiet=False):
+def run_checks(ref, patches, ids, tier="quick", repo="/repo", quiet=False, env_extra=None):
     tmp = tempfile.mkdtemp(prefix="hsv-")
     wt = os.path.join(tmp, "repo")
     ev = os.path.join(tmp, "evidence")
@@ -29,6 +29,7 @@ def run_checks(ref, patches, ids, tier="quick", repo="/repo", quiet=False):
                 results["_apply_error"] = "%s: %s" % (p, r.stderr.strip())
                 return results
         env = dict(os.environ, HS_EVIDENCE_DIR=ev, HS_VIOLATION_DIR=os.path.join(tmp, "viol"))
+        env.update(env_extra or {})
         for pid in ids:
             r = subprocess.run([os.path.join(VERIF, "check"), pid, "--tier", tier, "--repo", wt],
                                capture_output=True, text=True, env=env, cwd=VERIF)
